@@ -3,6 +3,7 @@ C11 — negation witnesses: concrete inputs on which the *full-strength* stateme
 model (and, replayed by the harness, of the implementation).  Each is listed in known_findings.txt.
 -/
 import WpModel.Props.C11
+import WpModel.Props.C11Flow
 
 namespace Wp.Witness.C11
 open Wp Wp.Floats Wp.Absolute Wp.C11
@@ -59,6 +60,53 @@ theorem zero_height_shape_blocks_a_position_that_fits :
   refine ⟨by decide +kernel, ?_⟩
   simp [Overlaps]
   intro _ _
+  decide +kernel
+
+/-- `float_width` offers `shrink_to_fit` the whole width of the containing block: an auto-width float with
+`padding: 0 10px; margin-left: 5px` whose content could take 300px gets a 100px content box in a 100px
+container, so its margin box (125px) does not fit where a CSS 2.1 §10.3.5 float (75px of content) would. -/
+theorem float_shrink_to_fit_ignores_margins_paddings :
+    let f : FloatSpec := ⟨.left, .none, .auto, none, .px 5, .px 0, .px 0, .px 0, .px 10, .px 10, .px 0, .px 0,
+      0, 0, 0, 0, .auto, .auto, 40, 300, 10, 30⟩
+    (floatResolve f 100).marginWidth = 125 ∧ ¬ ((floatResolve f 100).marginWidth ≤ 100) := by
+  refine ⟨by decide +kernel, by decide +kernel⟩
+
+/-- `float_layout` only calls `float_width` (and with it the min/max wrapper) for an auto width:
+`width: 200px; max-width: 100px` stays 200px wide, although `floatWidthAuto` would respect the maximum. -/
+theorem float_width_ignores_min_max :
+    let f : FloatSpec := ⟨.left, .none, .px 200, some 10, .px 0, .px 0, .px 0, .px 0, .px 0, .px 0, .px 0, .px 0,
+      0, 0, 0, 0, .auto, .px 100, 0, 0, 0, 0⟩
+    (floatResolve f 100).bw = 200 ∧ floatWidthAuto 0 (some 100) 0 300 100 = 100 := by
+  refine ⟨by decide +kernel, by decide +kernel⟩
+
+/-- A right-aligned line taller than the strut is positioned with the room measured on the strut band: a 30x12
+inline-block (strut 8) next to a left float 10x9 and a right float 60x30 that starts 9px lower ends at
+x = 70..100, over the right float (40..100 from y = 9): `placed_box_no_overlap` does not extend to the line
+position that `get_next_linebox` computes for alignments other than start. -/
+theorem tall_line_aligned_in_strut_band :
+    let shapes : List Shape := [⟨0, 0, 10, 9, .left⟩, ⟨40, 9, 60, 30, .right⟩]
+    (nextLinebox ⟨0, 100, false⟩ 8 .right shapes ⟨0, 30, 12, []⟩ 0).toOption.map (fun t => (t.x, t.y)) = some (70, 0) ∧
+    Overlaps 70 0 30 12 ⟨40, 9, 60, 30, .right⟩ := by
+  refine ⟨by decide +kernel, ?_⟩
+  simp [Overlaps]
+  decide +kernel
+
+/-- A fixed box collected too late (its outermost positioned ancestor is absolutely positioned) is laid out on
+its own page only: `fixed_on_every_page` needs `late = false`. -/
+theorem fixed_in_absolute_not_repeated :
+    Positioned.collectedLate [.static, .absolute] = true ∧
+    Positioned.pageFixed [[⟨1, 0, 0, true⟩], []] 1 = [] ∧ Positioned.pageFixed [[⟨1, 0, 0, true⟩], []] 0 ≠ [] := by
+  decide +kernel
+
+/-- A float kept on its line is moved to the line's top whatever `find_float_position` decided: a `clear:left`
+5x10 float met in a line next to an 80x30 left float ends at the line's top, over that float. -/
+theorem inline_float_snapped_to_line_top :
+    let shapes : List Shape := [⟨0, 0, 80, 30, .left⟩]
+    let l : LineSpec := ⟨10, 10, 10, [⟨0, 0, 0, 0, 0, 0, 5, 10, .left, .left, .bfc⟩]⟩
+    ((layoutLines ⟨0, 100, false⟩ 10 .start shapes [l] 0).toOption.map (fun r => r.2.1.map (fun p => p.floats)))
+      = some [[(0, 0, 5, 10)]] ∧ Overlaps 0 0 5 10 ⟨0, 0, 80, 30, .left⟩ := by
+  refine ⟨by decide +kernel, ?_⟩
+  simp [Overlaps]
   decide +kernel
 
 end Wp.Witness.C11
